@@ -17,7 +17,7 @@ import tempfile
 import time
 
 V = os.path.dirname(os.path.dirname(os.path.abspath(__file__)))
-REPO = "/repo"
+REPO = os.environ.get("SEEDED_REPO", "/repo")   # a scratch worktree when several runs work in parallel clones
 PY = "/venv/bin/python"
 
 
@@ -93,7 +93,8 @@ def run(ids, tier):
                 entry["detail"] = out[-300:]
             else:
                 t0 = time.time()
-                rc, out = sh([os.path.join(V, "vcheck"), prop, "--tier", tier], cwd=V, timeout=3600)
+                rc, out = sh([os.path.join(V, "vcheck"), prop, "--tier", tier], cwd=V, timeout=3600,
+                             env=dict(os.environ, VERIF_REPO=REPO))
                 entry["exit"] = rc
                 entry["wall_s"] = round(time.time() - t0, 1)
                 lines = [l for l in out.split("\n") if l.startswith("VIOLATION") or l.startswith("  what") or
@@ -111,7 +112,8 @@ def run(ids, tier):
             sh(["git", "-C", REPO, "checkout", "--", "."])
             # the regenerated Lean files must describe the UNCHANGED tree again
             sh([PY, "-c", "import sys; sys.path.insert(0, %r); from harness import common as C; "
-                "C.regenerate(%r, C.BuildStatus())" % (os.path.join(V, "tools"), prop)])
+                "C.regenerate(%r, C.BuildStatus())" % (os.path.join(V, "tools"), prop)],
+               env=dict(os.environ, VERIF_REPO=REPO))
             if ev_saved is not None:
                 with open(ev_path, "wb") as fp:
                     fp.write(ev_saved)
